@@ -706,6 +706,28 @@ func init() {
 		p.ofield.Args = keep
 		return true
 	}})
+	// (added by the lead after a seeded change reused the previously found
+	// argument when the next one was missing) the implementer lacks an
+	// argument that FOLLOWS, in name order, an argument of the same type
+	add(corruption{"impl:arg-missing-after-same-typed-arg", "illegal", func(m *Model, r *core.RNG) bool {
+		p, ok := pickPair(m, r, nil)
+		if !ok {
+			return false
+		}
+		t := Ref{To: core.PickStr(r, []string{"$Int", "$String", "$Boolean"}), Wrap: core.PickStr(r, []string{"", "N", "L"})}
+		n := r.Range(2, 4)
+		p.ifield.Args = nil
+		p.ofield.Args = nil
+		drop := r.Range(1, n-1)
+		for i := 0; i < n; i++ {
+			name := "same" + string(rune('a'+i))
+			p.ifield.Args = append(p.ifield.Args, &ArgDef{Name: name, Type: t})
+			if i != drop {
+				p.ofield.Args = append(p.ofield.Args, &ArgDef{Name: name, Type: t})
+			}
+		}
+		return true
+	}})
 	add(corruption{"impl:arg-type-changed", "illegal", func(m *Model, r *core.RNG) bool {
 		p, ok := pickPair(m, r, nil)
 		if !ok {
